@@ -33,23 +33,42 @@ def exTree : Forest :=
        .mk [109, 98] [120] (.leaf false) [118] []]]]
 
 /-- non-vacuity: a static buffer of 20 bytes receives `/ma:c/l[k1='a b']` (the second key predicate no longer fits),
-    in three writes, all in bounds -/
-example : (lydPath exTree [0, 0, 2] .std (some 20)).map (fun b => (b.data, b.log.length)) =
-    some ([47, 109, 97, 58, 99, 47, 108, 91, 107, 49, 61, 39, 97, 32, 98, 39, 93], 3) := by decide
+    the allocation stays the caller's 20 bytes -/
+example : (lydPath exTree [0, 0, 2] .std (some 20)).map (fun b => (b.data, b.cap)) =
+    some ([47, 109, 97, 58, 99, 47, 108, 91, 107, 49, 61, 39, 97, 32, 98, 39, 93], 20) := by decide
 
 /-- **static_buffer_terminated** (full statement): whenever `lyd_path` returns the caller's buffer it has written a
-    (possibly truncated) NUL-terminated path into it.  FALSE for the code: finding F51. -/
+    (possibly truncated) NUL-terminated path into it.  The pinned source lacks the up-front termination (finding F51):
+    the statement is FALSE for it, TRUE once `buffer[0] = '\0'` is there — both proved relative to the generated fact
+    `Generated.PathFmt.staticInitNul`, which says which of the two the source is right now. -/
 def StaticBufferTerminated : Prop :=
   ∀ (f : Forest) (a : Addr) (pt : PathType) (n : Nat) (b : Buf), lydPath f a pt (some n) = some b → b.log ≠ []
 
-theorem static_buffer_terminated_fails : ¬ StaticBufferTerminated := by
+theorem static_buffer_terminated_fails (hsrc : Generated.PathFmt.staticInitNul = false) : ¬ StaticBufferTerminated := by
   intro h
   -- `char buf[3]; lyd_path(c, LYD_PATH_STD, buf, 3)`: "/ma:c" needs 6 bytes, nothing is written, `buf` is returned
-  have key : ∃ b, lydPath exTree [0] .std (some 3) = some b ∧ b.log = [] := ⟨_, rfl, by decide⟩
+  have key : ∃ b, lydPath exTree [0] .std (some 3) = some b ∧ b.log = [] := by
+    refine ⟨(printLevels true (initBuf (some 3)) [⟨exTree, 0, exTree[0]!, none⟩]).1, rfl, ?_⟩
+    simp only [initBuf, hsrc]
+    decide
   obtain ⟨b, hb, hlog⟩ := key
   exact h exTree [0] .std 3 b hb hlog
 
-/-- the part that holds: a buffer with room for the first segment (`/module:name` + NUL) is written and terminated -/
+/-- with the repair of F51 in the source the full statement holds -/
+theorem static_buffer_terminated_fixed (hsrc : Generated.PathFmt.staticInitNul = true) : StaticBufferTerminated := by
+  intro f a pt n b h
+  unfold lydPath at h
+  split at h
+  · cases h
+  · cases h
+  · simp only at h
+    split at h
+    · cases h
+      exact printLevels_log _ _ _ (by simp [initBuf, hsrc])
+    · cases h
+
+/-- the part that holds either way: a buffer with room for the first segment (`/module:name` + NUL) is written and
+    terminated -/
 theorem static_buffer_terminated_partial (f : Forest) (a : Addr) (pt : PathType) (n : Nat) (b : Buf) (l : Level)
     (rest : List Level) (h : lydPath f a pt (some n) = some b) (hl : levels f a = some (l :: rest))
     (hroom : 1 + (l.node.mod.length + 1) + l.node.name.length + 1 ≤ n) :
@@ -61,7 +80,7 @@ theorem static_buffer_terminated_partial (f : Forest) (a : Addr) (pt : PathType)
     split at h
     · cases h
       simp only [printLevels]
-      have hstep : (printStep ⟨true, n, [], []⟩ l ((pt == .std) || !rest.isEmpty)).1.log ≠ [] := by
+      have hstep : (printStep (initBuf (some n)) l ((pt == .std) || !rest.isEmpty)).1.log ≠ [] := by
         apply printStep_wrote
         have hp : l.pmod = none := by
           unfold levels levelsFrom at hl
@@ -75,7 +94,7 @@ theorem static_buffer_terminated_partial (f : Forest) (a : Addr) (pt : PathType)
               · cases hl
               · cases hl; rfl
         have hm : stepMod l = some l.node.mod := by simp [stepMod, hp]
-        simp only [hm, Generated.PathFmt.stepLen]
+        simp only [hm, Generated.PathFmt.stepLen, initBuf]
         simp
         omega
       split
@@ -84,7 +103,7 @@ theorem static_buffer_terminated_partial (f : Forest) (a : Addr) (pt : PathType)
     · cases h
   exact ⟨hw, (lydPath_good h).term hw⟩
 
-example : (lydPath exTree [0] .std (some 6)).map (fun b => (b.data, b.log.length)) = some ([47, 109, 97, 58, 99], 1) := by
+example : (lydPath exTree [0] .std (some 6)).map (fun b => (b.data, b.log.isEmpty)) = some ([47, 109, 97, 58, 99], false) := by
   decide
 
 /-! ## printed predicates and paths are read back -/
